@@ -134,13 +134,26 @@ def expected_scopes(target: str, spec: mmgen.Spec, methods: List[c21_gen.Method]
     elif target == "xsd":
         from aas_core_codegen.xsd import naming as xsd_naming
 
-        scopes["types"] = [(f"enumeration {e.name}", xsd_naming.type_name(I(e.name))) for e in spec.enums] + \
+        # enumerations that no property refers to are not emitted by the XSD target
+        scopes["types"] = [(f"enumeration {e}", xsd_naming.type_name(I(e))) for e in used_enums(spec)] + \
                           [(f"class {c.name}", xsd_naming.type_name(I(c.name))) for c in spec.classes]
         scopes["elements"] = [(f"class {c.name}", shared.xml_class_name(I(c.name))) for c in spec.classes if not c.abstract]
         for c in spec.classes:
             scopes[f"properties of {c.name}"] = [(f"property {p.name}", shared.xml_property(I(p.name)))
                                                  for p in spec.all_props(c.name)]
     return scopes
+
+
+def used_enums(spec: mmgen.Spec) -> List[str]:
+    used = []  # type: List[str]
+    for c in spec.classes:
+        for p in c.props:
+            t = p.type  # type: Optional[mmgen.TRef]
+            while t is not None:
+                if t.kind == "enum" and t.name not in used:
+                    used.append(t.name)
+                t = t.item
+    return [e.name for e in spec.enums if e.name in used]
 
 
 def collisions_in(scopes: Dict[str, List[Tuple[str, str]]]) -> List[Tuple[str, str, List[str]]]:
@@ -204,7 +217,8 @@ def observe_python(root: pathlib.Path, module: str, spec: mmgen.Spec) -> List[Tu
         if len(enums) == len(spec.enums) and n_lit != sum(len(e.literals) for e in spec.enums):
             fails.append(("literals", f"{n_lit} literals declared for {sum(len(e.literals) for e in spec.enums)} of the model"))
         if len(classes) == len(spec.classes):
-            got = sorted(len(inspect.signature(c.__init__).parameters) - 1 for c in classes)
+            got = sorted((len(inspect.signature(c.__init__).parameters) - 1) if "__init__" in vars(c) else 0
+                         for c in classes)
             want = sorted(len(spec.all_props(c.name)) for c in spec.classes)
             if got != want:
                 fails.append(("members", f"constructor parameter counts {got} for property counts {want}"))
@@ -277,7 +291,7 @@ def observe_by_regex(target: str, root: pathlib.Path, spec: mmgen.Spec) -> List[
         lits = 0
         for m in enums:
             body = _block_after(src, m.start())
-            ln = re.findall(r"^\s*(\w+)\s*=", body, flags=re.M)
+            ln = re.findall(r"^\s*(\w+)\s*(?:=[^,\n]*)?,?\s*$", body, flags=re.M)
             lits += len(set(ln))
             if _dups(ln):
                 fails.append(("literals", f"enumeration {m.group(1)} declares {_dups(ln)} more than once"))
@@ -430,9 +444,9 @@ def observe_xsd(root: pathlib.Path, spec: mmgen.Spec) -> List[Tuple[str, str]]:
     for kind, names in named.items():
         if _dups(names):
             fails.append(("types", f"{kind} components named {_dups(names)} are declared more than once"))
-    want_types = len(spec.enums) + len(spec.classes)
+    want_types = len(used_enums(spec)) + len(spec.classes)
     if len(set(named.get("type", []))) != want_types:
-        fails.append(("types", f"{len(set(named.get('type', [])))} named types for {want_types} classes and enumerations"))
+        fails.append(("types", f"{len(set(named.get('type', [])))} named types for {want_types} classes and used enumerations"))
     groups = [g for g in tree if g.tag == ns + "group" and not (g.get("name") or "").endswith("_choice")]
     if len({g.get("name") for g in groups}) != len(spec.classes):
         fails.append(("types", f"{len(groups)} groups for {len(spec.classes)} classes of the model"))
@@ -576,7 +590,11 @@ def shard(ctx: runner.Ctx) -> None:
                     "targets": [b.split(":")[0]], "pair": list(pl.pair), "kind": pl.kind}
             ctx.fail(b, case, m)
 
-    runner.hyp_run(cases(), one, n, ctx.seed)
+    # one Hypothesis run per scope kind: a single run of ~20 examples is biased towards its first alternatives
+    kinds = c21_gen.SCOPE_KINDS
+    per_kind = max(1, n // len(kinds))
+    for i, kind in enumerate(kinds):
+        runner.hyp_run(c21_gen.planted_specs(kind=kind), one, per_kind, ctx.seed * 100 + i)
 
 
 def replay(case: Any) -> List[Tuple[str, str]]:
